@@ -205,6 +205,10 @@ M("tp22_abort_matched_without_pgn", ["C10"], "D42 reverted (J1939-22): abort mat
   ("j1939/j1939_22.py", "self._snd_buffer[buffer_hash]['pgn'] == pgn and ", ""))
 M("dm1_stop_during_callback_ignored", ["C16"], "D43 reverted: _send does not look at the cycle's active flag",
   ("j1939/diagnostic_messages.py", "        if not cookie.get('active', True):", "        if False:"))
+M("tp21_abort_no_wakeup", ["C10"], "D45 reverted (J1939-21): no job-thread wake-up after a peer abort",
+  ("j1939/j1939_21.py", "                # the job thread releases the session: it must not sleep on until the old deadline\n                self.__job_thread_wakeup()\n", ""))
+M("tp22_abort_no_wakeup", ["C10"], "D45 reverted (J1939-22): no job-thread wake-up after a peer abort",
+  ("j1939/j1939_22.py", "                # the job thread releases the session: it must not sleep on until the old deadline\n                self.__job_thread_wakeup()\n", ""))
 M("tp21_grant_ignores_rts_limit", ["C09", "C03"], "responder grant ignores the RTS limit",
   ("j1939/j1939_21.py", "            max_num_packages = min(max_num_packages, num_packages)\n", "            max_num_packages = num_packages\n"))
 M("tp21_hold_ignored", ["C09"], "zero-packet CTS treated as 'continue'",
